@@ -1367,7 +1367,7 @@ uint32_t var_opt_sketch<T, A>::validate_and_get_target_size(uint32_t preamble_lo
       throw std::invalid_argument("Possible corruption: deserializing with n > k but not in full mode. "
        "Found n = " + std::to_string(n) + ", k = " + std::to_string(k));
     }
-    if (h + r != k) {
+    if (static_cast<uint64_t>(h) + r != k) {
       throw std::invalid_argument("Possible corruption: deserializing in full mode but h + r != n. "
        "Found h = " + std::to_string(h) + ", r = " + std::to_string(r) + ", n = " + std::to_string(n));
     }
